@@ -117,7 +117,7 @@ def run(ctx):
             ctx.add(name, 'discharged', r.get('secs', 0), 'asmx', '%d return paths, %d instructions, %d queries' % (r.get('paths', 0), r.get('steps', 0), r.get('queries', 0)))
         elif res == 'violated':
             ctx.add(name, 'violated', r.get('secs', 0), 'asmx', r['detail'])
-            ctx.violation('%s' % n, '%s in %s: %s (replay: tools/abi_replay.py %s %s re-executes the path and prints the register file at the ret)' % (
+            ctx.violation('%s' % n, '%s in %s: %s (replay: python3-vt tools/abi_replay.py <dir>/%s %s re-executes the function and prints the offending paths with the register file at the ret)' % (
                 n, relobj, r['detail'], relobj, n))
         else:
             ctx.add(name, 'inconclusive', r.get('secs', 0), 'asmx', r.get('detail', ''))
